@@ -23,6 +23,21 @@ Proof. exact same_tenant_match. Qed.
 Print Assumptions same_tenant_match.
 
 From Wasp Require Import Model.DState Model.IdPool Model.Node Proofs.NodeFacts.
+From Wasp Require Import Proofs.DStateFacts Proofs.TakeoverFacts Proofs.TenantFacts.
+(** "... client identifiers used in one mount point do not affect sessions in another": the
+    session an identifier resolves to is always one of the asking mount point, and the CONNECT
+    path ([takeover]: remove what the identifier resolves to, store the new record) leaves every
+    record of every other mount point exactly as it was. *)
+Theorem identifiers_resolve_within_the_mount_point : ∀ d mp cid m,
+  m ∈ sess_by_client mp cid d → m_mp m = mp ∧ m_cid m = cid ∧ sess_added m = true.
+Proof. exact resolution_scoped. Qed.
+Print Assumptions identifiers_resolve_within_the_mount_point.
+Theorem connect_leaves_other_tenants_alone : ∀ d id cid mp lwt clk k m,
+  sess_ok (d_sess d) → alookup k (d_sess d) = Some m → m_mp m ≠ mp → k ≠ id →
+  alookup k (d_sess (takeover d id cid mp lwt clk)) = Some m.
+Proof. exact connect_spares_other_tenants. Qed.
+Print Assumptions connect_leaves_other_tenants_alone.
+
 (** At delivery: a subscription stored under mp2/f is selected for a message routed under mp1/t
     (live publish, retained replay or will - all are routed under the publisher's mount point)
     only if mp1 = mp2 and f matches t; and the topic written to the client is the publisher's. *)
